@@ -25,6 +25,8 @@
 #endif
 
 #define W_TMAX ((time_t) 1 << 32)     /* clock range of the claim: 0 <= time() < 2^32 */
+#define W_DMAX ((time_t) 1 << 40)     /* |min_duration| a client may ask for in the claim; beyond 2^63 - 2^32 the scheduler's time arithmetic
+                                         (proxyd.c:1392) overflows - signed overflow on client supplied data, reported as a note, not checked here */
 static PROXY_CLNT *W_cl[3];
 static unsigned W_ncl;
 static int W_gone[3];        /* client was unlinked and freed by the daemon */
@@ -144,6 +146,7 @@ static PROXY_CLNT *w_client(int dev, int msg)
   c->buffer_count = W_CLBUF;                                              /* bound: buffers asked for by every client (concrete: it is the trip count of the allocation loops) */
   V_ASSUME(c->io.sock_fd >= 0 && c->io.sock_fd < 1024);
   V_ASSUME(inv_sched(c));
+  V_ASSUME(c->chn_profile.min_duration > -W_DMAX && c->chn_profile.min_duration < W_DMAX);   /* bound: see W_DMAX */
   if (c->io.writeLen != 0) {                                              /* a reply is on its way out */
     V_ASSUME(c->io.writeLen >= sizeof(VBIPROXY_MSG_HEADER) && c->io.writeLen <= sizeof(c->msg_buf) && c->io.writeOff < c->io.writeLen);
     c->io.pWriteBuf = &c->msg_buf;
@@ -359,6 +362,7 @@ static void w_dump(const char *tag)
            c->chn_state.token_state, c->chn_prio, c->chn_profile.is_valid, c->chn_profile.sub_prio, (long) c->chn_profile.min_duration, c->chn_state.is_completed, c->chn_state.cycle_count,
            (long) c->chn_state.last_start, c->all_services, c->services[0], c->services[1], c->services[2], c->services[3], (void *) c->p_sliced, c->io.writeLen, c->chn_status_ind);
   }
+  fflush(stdout);
 #else
   (void) tag;
 #endif
